@@ -1,14 +1,18 @@
 from vf.driver import Job
 from vf import gen_h263 as g
 import os
+# DEVC items:  z:W:H:SHAPE   or   c:CLASS:SHAPE:HK:MB,MB,...[:bi,bj,code]
 def spec(tier, seed):
     gen, jobs = "", []
-    for item in os.environ.get("DEVC", "z:0:0").split(","):
+    for idx, item in enumerate(os.environ.get("DEVC", "z:0:0:0").split(";")):
         parts = item.split(":")
         if parts[0] == "z":
-            w, h = int(parts[1]), int(parts[2])
-            gen += g.core_zero(w, h); jobs.append(Job("h263", g.core_zero_name(w, h), int(os.environ.get("DEV_T", "900"))))
+            w, h, sh = int(parts[1]), int(parts[2]), int(parts[3])
+            gen += g.core_zero(w, h, sh); jobs.append(Job("h263", g.core_zero_name(w, h, sh), int(os.environ.get("DEV_T", "900")), tagged=True))
         else:
-            c, n, s = int(parts[1]), int(parts[2]), int(parts[3])
-            gen += g.core_c1(c, n, s); jobs.append(Job("h263", g.core_c1_name(c, n, s), int(os.environ.get("DEV_T", "900"))))
+            c, sh, hk = int(parts[1]), int(parts[2]), int(parts[3])
+            mbs = [int(x) for x in parts[4].split(",")] if len(parts) > 4 and parts[4] else []
+            be = tuple(int(x) for x in parts[5].split(",")) if len(parts) > 5 else None
+            sc = g.Scenario(hk, mbs, be)
+            gen += g.core_c1(c, sh, idx, sc); jobs.append(Job("h263", g.core_c1_name(c, sh, idx), int(os.environ.get("DEV_T", "900")), tagged=True, params={"scenario": sc.describe()}))
     return {"jobs": jobs, "generated": {"h263/src/decoder/state.rs": gen}}
